@@ -93,7 +93,7 @@ func runC18(ctx *core.Ctx) {
 	pool := gen.CSSTokenPool()
 	props := gen.CSSProperties
 	capSingles := ctx.N(18, 40)
-	capBases := ctx.N(160, 1200)
+	capBases := ctx.N(110, 1200)
 
 	// --- unknown properties reject everything ---------------------------------
 	unknown := []string{"behavior", "-moz-binding", "Color", "color ", " color", "colour", "COLOR", "background-image ", "x", "", "binding", "-ms-behavior", "src", "content", "unicode-range", "font-face", "expression", "zoom", "-webkit-mask-image", "mask", "clip-path", "will-change"}
